@@ -602,6 +602,19 @@ Proof.
     intros ? d Hd; try congruence; apply bin_ok_sound; now apply (forallb_In _ _ _ H5).
 Qed.
 
+(* ---- the registrations the property names are present ---- *)
+Definition required_ok (w : world) : bool :=
+  forallb (fun f => mem f (w_first w)) required_first && forallb (fun f => mem f (w_second w)) required_second.
+Lemma required_registered w : required_ok w = true ->
+  (forall f, In f required_first -> exists m, lookup f (w_first w) = Some m) /\
+  (forall f, In f required_second -> exists m, lookup f (w_second w) = Some m).
+Proof.
+  unfold required_ok. intros H. apply andb_prop in H as [H1 H2].
+  split; intros f Hf; apply mem_true_lookup.
+  - exact (forallb_In _ _ _ H1 Hf).
+  - exact (forallb_In _ _ _ H2 Hf).
+Qed.
+
 (* ---- totality ---- *)
 Definition total_ok (w : world) : bool :=
   forallb (fun c => forallb (fun fm => match resolve w c (snd fm) with Some (_, k) => not_other k | None => false end)
